@@ -225,7 +225,7 @@ def _ptr_into_storage(p, I):
 
 
 def _in_cycle(I, gid):
-    return gid in I.g.reachable_from(gid)
+    return gid in I.reachable_from(gid)
 
 
 # ------------------------------------------------------------------------------------------------ R-ORDER
@@ -296,7 +296,7 @@ def r_order(ctx):
                     if u is c:
                         continue
                     # u after c (reachable) and before LEN is finalised
-                    if not (u.gid == c.gid and u.idx > c.idx) and u.gid not in I.g.reachable_from(c.gid):
+                    if not (u.gid == c.gid and u.idx > c.idx) and u.gid not in I.reachable_from(c.gid):
                         continue
                     res.inst(sample={"function": fpath, "P2": "user code %s after shift" % u.kind, "at": u.where(), "arm": an})
                     L = len_at(u, lp)
@@ -376,7 +376,7 @@ def r_order(ctx):
 
 
 def _reach(I, a, b):
-    return b.gid in I.g.reachable_from(a.gid) or (a.gid == b.gid and a.idx < b.idx)
+    return b.gid in I.reachable_from(a.gid) or (a.gid == b.gid and a.idx < b.idx)
 
 
 # ------------------------------------------------------------------------------------------------ R-FORGET
@@ -413,6 +413,9 @@ def r_forget(ctx):
                 if len(clones) != 1:
                     res.fail(adt, role, "consuming a lazy value must clone the source exactly once, found %d clone calls" % len(clones), span=ctx.span_of(path))
                     continue
+                if not all(before_in(I, clones[0], r) for r in rets):
+                    res.fail(adt, role, "a path through move_into returns without cloning the source: the destination slot is left without a value", span=span_of_effect(clones[0]))
+                    continue
                 if forgets:
                     res.fail(adt, role, "lazy value forgets something on consumption", span=span_of_effect(forgets[0]))
                     continue
@@ -437,6 +440,26 @@ def r_forget(ctx):
                 res.fail(adt, role, "self is dropped on a normal path after its bytes were moved out", span=span_of_effect(drops[0]))
                 continue
             res.ok()
+    # the consumption protocol is not bypassed: bytes of a user value are copied out only by move_into (override or default)
+    for fpath, subst, ef, label in entry_points(ctx):
+        for tt, I in ctx.arms(fpath, subst=subst, entry_facts=ef) or []:
+            for c in I.all_effects(("COPY",)):
+                pp = ptr_parts(c["src"])
+                if not pp or not (isinstance(pp[0], tuple) and pp[0] and pp[0][0] == "VBYTES"):
+                    continue
+                fn = c.node.inst
+                owner = fn
+                # climb out of the copy helper
+                while owner.parent is not None and owner.fn.get("name") not in ("move_into",) and not (owner.fn.get("impl_trait") or owner.fn.get("trait_item_of")):
+                    owner = owner.parent
+                res.inst(sample={"bitwise_copy_of_user_value_in": owner.path()}, func=owner.path())
+                of = owner.fn
+                is_protocol = of.get("name") == "move_into" and (of.get("impl_trait") == trait or of.get("trait_item_of") == trait)
+                if is_protocol:
+                    res.ok()
+                else:
+                    res.fail(owner.path(), "bypasses-move_into/%s" % arm_name(tt), "the bytes of a user value are copied out directly instead of through AnyValueSizeless::move_into: "
+                             "overrides (lazy clones, removal handles) are skipped, the source is duplicated bitwise", span=span_of_effect(c))
     # wrapper drop-glue facts
     expect_no_drop = ["element::ElementRef", "element::ElementMut", "any_value::lazy_clone::LazyClone", "any_value::raw::AnyValueRaw",
                       "any_value::raw::AnyValueTypelessRaw", "any_value::raw::AnyValueSizelessRaw"]
@@ -609,7 +632,7 @@ def r_boundloop(ctx):
                 continue
             found += 1
             res.inst(sample={"function": dp, "loop": "user iterator next() + write into storage", "arm": an}, func=dp)
-            loop = I.g.reachable_from(nexts[0].gid) & _coreach(I, nexts[0].gid)
+            loop = I.reachable_from(nexts[0].gid) & _coreach(I, nexts[0].gid)
             loop.add(nexts[0].gid)
             # exits: branch nodes in the loop with a successor outside
             bounded = False
